@@ -454,6 +454,9 @@ def router_oracle(c, rec, prop):
         for j in range(c["late"]):
             if sum(1 for e in log if e[0] == "drop" and e[1] == 1000 + j) != 1:
                 return "a route offered while shutdown was in progress was not dropped exactly once"
+        if rec.get("late_typed_disc") is False:
+            return ("a typed route (route_ipc_receiver_to_new_crossbeam_receiver) offered after shutdown() had returned: its consumer was not told that the channel "
+                    "is disconnected within 1.5 s (nothing will ever arrive there)")
         if c.get("busy"):
             for j in range(4):
                 if sum(1 for e in log if e[0] == "drop" and e[1] == 3000 + j) != 1:
@@ -561,6 +564,27 @@ def router_check(chk, prop, stops, rule):
                     fails.append((None, r, fl, why))
                     chk.failing_input("routes carrying messages of very different sizes: " + why, {"build": fl, "scenario": l, "observed": r}, key="sizes:%s:%d" % (fl, i))
         chk.coverage["mixed_size_route_scenarios"] = 2 * len(slines)
+        # a callback that registers a reply route on the same proxy for every message it handles, the outer route's first messages queued
+        # before it is registered: no deadlock, every message handled once and in order
+        rlines = ["id=%d op=reenter n=%d" % (9600 + i, n) for i, n in enumerate((0, 1, 3, 12))]
+        for fl in ("default", "inprocess"):
+            rrecs, _, rrc, rerr = C.run_harness(bins[fl], "router", rlines, shim=False, timeout=120)
+            rby = {r["id"]: r for r in rrecs if r.get("kind") == "reenter"}
+            for i, l in enumerate(rlines):
+                r = rby.get(9600 + i)
+                why = None
+                if r is None:
+                    why = "the scenario did not complete: %s" % rerr[-200:]
+                elif not r["registered"]:
+                    why = "add_route never returned (watchdog 6 s): %d message(s) were queued on the channel before it was registered" % r["n"]
+                elif r["outer"] != list(range(r["n"] + 1)):
+                    why = "the outer route's callback saw %s instead of messages 0..%d once each in order" % (r["outer"], r["n"])
+                elif r["replies"] != [100 + q for q in range(r["n"] + 1)]:
+                    why = "the reply routes registered from inside the callback received %s instead of one message each (%d routes)" % (r["replies"], r["n"] + 1)
+                if why:
+                    fails.append((None, r, fl, why))
+                    chk.failing_input("a callback that registers further routes on its own proxy: " + why, {"build": fl, "scenario": l, "observed": r}, key="reenter:%s:%d" % (fl, i))
+        chk.coverage["reentrant_callback_scenarios"] = 2 * len(rlines)
     for c, rec, fl, why in [f for f in fails if f[0] is not None][:8]:
         chk.failing_input(why, {"build": fl, "scenario": router_line(c), "observed": rec and {k: rec[k] for k in ("stop_ok", "panicked", "log_at_return", "log_after")},
                                 "log_before_stop": rec and rec["log_before_stop"][:30]}, key="%s:%s" % (fl, router_line(c)[:300]))
@@ -635,9 +659,11 @@ def check_C20(chk):
     # abandoned streams: a consumer drops its stream while the sender keeps sending; other streams must not notice
     unit_lines = ["id=%d op=unit before=%d after=%d" % (9100 + i, b, a) for i, (b, a) in enumerate([(0, 1), (3, 0), (2, 5), (70, 70)])]
     probe_lines = ["id=%d op=probe k=%d probes=%d" % (9200 + i, k, p) for i, (k, p) in enumerate([(1, 1), (5, 1), (5, 3), (40, 2)])]
+    stagger_lines = ["id=%d op=stagger n=%d order=%s" % (9300 + i, len(o), ",".join(str(x) for x in o)) for i, o in enumerate([[0, 1, 2], [0, 1, 2, 3, 4], [4, 3, 2, 1, 0], [2, 0, 5, 1, 4, 3]])]
     arecs, _, arc, aerr = C.run_harness(bins["async"], "async", ["id=9001 op=abandon rounds=%d k=3" % (2000 if thorough else 300),
-                                                                   "id=9002 op=abandon rounds=%d k=25" % (500 if thorough else 60)] + unit_lines + probe_lines, shim=False, timeout=600)
+                                                                   "id=9002 op=abandon rounds=%d k=25" % (500 if thorough else 60)] + unit_lines + probe_lines + stagger_lines, shim=False, timeout=600)
     probes = [r for r in arecs if r.get("kind") == "probe"]
+    staggers = [r for r in arecs if r.get("kind") == "stagger"]
     abandon = [r for r in arecs if r.get("kind") == "abandon"]
     units = [r for r in arecs if r.get("kind") == "unit"]
 
@@ -716,6 +742,27 @@ def check_C20(chk):
                                  else "yielded %s instead of its %d messages" % (r["items"], r["k"])), {"scenario": "op=probe k=%d probes=%d" % (r["k"], r["probes"]), "observed": r},
                               key="probe:%d:%d" % (r["k"], r["probes"]))
     chk.coverage["probed_stream_scenarios"] = len(probes)
+    # streams that end one after the other while the others go on carrying traffic
+    if len(staggers) < len(stagger_lines) and len(probes) == len(probe_lines):
+        fails.append((None, None, "stagger"))
+        chk.failing_input("the staggered-end scenario did not complete: %s" % aerr[-300:], {"scenario": "op=stagger"}, key="stagger:none")
+    for r in staggers:
+        why = None
+        for k, victim in enumerate(r["order"]):
+            if k >= len(r["results"]):
+                why = ("stream %d (its last sender dropped in round %d, %d of %d streams still open) never ended or lost a message: no stream finished within 4 s"
+                       % (victim, k + 1, r["n"] - k, r["n"]))
+                break
+            x = r["results"][k]
+            if x["stream"] != victim or not x["ended"] or x["items"] != list(range(k + 1)):
+                why = ("in round %d the sender of stream %d was dropped after one more message on every open stream; the stream that finished was %d with items %s (expected %s)"
+                       % (k + 1, victim, x["stream"], x["items"], list(range(k + 1))))
+                break
+        if why:
+            fails.append((None, r, "stagger"))
+            chk.failing_input("%d streams alive at once that end in the order %s while the others keep receiving: %s" % (r["n"], r["order"], why),
+                              {"scenario": "op=stagger n=%d order=%s" % (r["n"], ",".join(str(x) for x in r["order"])), "observed": r}, key="stagger:%s" % r["order"])
+    chk.coverage["staggered_end_scenarios"] = len(staggers)
     if len(abandon) < 2:
         fails.append((None, None, "abandon"))
         chk.failing_input("the abandoned-stream scenario did not complete: %s" % aerr[-300:], {"scenario": "op=abandon"}, key="abandon:none")
@@ -872,7 +919,12 @@ def timed_slice(chk, bins, flavours, n, seed_off, what):
              {"id": 2, "ops": ["s10", "t", "t", "B25", "T300", "B25"], "model": [],
               "expect": ["OMsg", "OEmpty", "OMsg", "OEmpty", "OMsg"],
               "meta": [{"op": "t", "timeout_us": None, "state": "QMsg"}, {"op": "t", "timeout_us": None, "state": "QIdle"}, {"op": "B25", "timeout_us": None, "state": "QMsgLater"},
-                       {"op": "T300", "timeout_us": 300, "state": "QIdle"}, {"op": "B25", "timeout_us": None, "state": "QMsgLater"}]}]
+                       {"op": "T300", "timeout_us": 300, "state": "QIdle"}, {"op": "B25", "timeout_us": None, "state": "QMsgLater"}]},
+             # complete messages too short for the receiver's type: a decoding error each time - not 'disconnected' (senders live), not 'empty'
+             {"id": 3, "ops": ["x", "t", "s10", "x", "T1500", "b", "t", "d", "t"], "model": [],
+              "expect": ["OError", "OMsg", "OError", "OEmpty", "ODisconnected"],
+              "meta": [{"op": "t", "timeout_us": None, "state": "QMsg"}, {"op": "T1500", "timeout_us": 1500, "state": "QMsg"}, {"op": "b", "timeout_us": None, "state": "QMsg"},
+                       {"op": "t", "timeout_us": None, "state": "QIdle"}, {"op": "t", "timeout_us": None, "state": "QDead"}]}]
     while len(cases) < n:
         ops, model, expect, meta = gen_timed(rng, rng.randint(4, 12))
         if model:
